@@ -180,7 +180,7 @@ fn scenarios(rng: &mut Rng, thorough: bool) -> Vec<Scenario> {
             v.push(Scenario { name: format!("expanding-{}-{}", String::from_utf8_lossy(&ty[..]), inflated), file: assemble(&ch) });
         }
     }
-    for (ty, n) in [(b"tEXt", 3_000_000usize), (b"eXIf", 3_000_000), (b"prVt", 5_000_000), (b"iTXt", 2_000_000)] {
+    for (ty, n) in [(b"tEXt", 3_000_000usize), (b"eXIf", 3_000_000), (b"prVt", 5_000_000), (b"iTXt", 2_000_000), (b"prVt", 48_000_000), (b"tEXt", 40_000_000), (b"eXIf", 40_000_000)] {
         let mut p = b"key\0\0\0\0\0".to_vec();
         p.extend(std::iter::repeat(b'x').take(n));
         let ch = vec![ihdr(2, 2, 8, 0, 0), Chunk::new(ty, p), Chunk::new(b"IDAT", zeros_z(6)), Chunk::new(b"IEND", vec![])];
@@ -257,6 +257,25 @@ fn ledger_cases(o: &mut Out, rng: &mut Rng, thorough: bool) {
     }
 }
 
+/// chunks larger than the 32 KiB chunk buffer: its growth must be charged to the budget exactly as the model does
+fn ledger_big_chunk_cases(o: &mut Out, rng: &mut Rng, thorough: bool) {
+    for k in 0..(if thorough { 60 } else { 14 }) {
+        let ty = *rng.pick(&[b"tEXt", b"prVt", b"eXIf", b"iTXt", b"zTXt"]);
+        let n = *rng.pick(&[32760usize, 32768, 32769, 40000, 70000]);
+        let mut p = b"key\0\0\0\0\0".to_vec();
+        p.extend((0..n - 8).map(|i| b'a' + (i % 23) as u8));
+        let file = assemble(&[ihdr(1, 1, 8, 0, 0), Chunk::new(ty, p), Chunk::new(b"IDAT", zlib_flate2(&[0, 0], 6)), Chunk::new(b"IEND", vec![])]);
+        let limit = *rng.pick(&[0usize, 1000, 32768, 40000, 100000, 67108864]);
+        let sc: Vec<usize> = match k % 3 { 0 => vec![], 1 => vec![4096], _ => vec![rng.range(1000, 50000) as usize] };
+        let pieces = split_sched(&file, &sc);
+        let r = run_l0(&pieces, Opts::default(), Some(limit));
+        let sizes = if sc.is_empty() { "-".to_string() } else { sc.iter().map(|x| x.to_string()).collect::<Vec<_>>().join(",") };
+        o.case(&format!("l0budget {} {} {} {}", Opts::default().bits(), limit, sizes, hex(&file)), &r.limit_left.to_string(),
+               &format!("ledger-big-{}-{}-{}", String::from_utf8_lossy(&ty[..]), n, limit), true);
+        o.count("ledger.big-chunk");
+    }
+}
+
 fn rng_len(rng: &mut Rng) -> usize {
     *rng.pick(&[0usize, 1, 5, 30, 120])
 }
@@ -266,6 +285,7 @@ pub fn run(a: &Args) {
     let mut rng = Rng::new(a.seed);
     let thorough = a.tier == "thorough";
     ledger_cases(&mut o, &mut rng, thorough);
+    ledger_big_chunk_cases(&mut o, &mut rng, thorough);
     let scs = scenarios(&mut rng, thorough);
     let limits: Vec<usize> = if thorough { vec![64 << 10, 256 << 10, 1 << 20, 4 << 20, 16 << 20, 64 << 20] } else { vec![64 << 10, 256 << 10, 1 << 20, 16 << 20, 64 << 20] };
     let trs = [Transformations::IDENTITY, Transformations::EXPAND, Transformations::STRIP_16, Transformations::EXPAND | Transformations::STRIP_16, Transformations::ALPHA];
